@@ -159,10 +159,15 @@ def parseOp (k : Kind) (name : String) (a : List Nat) : Option Op :=
   | .P, "append0", [v] => some (.pAppend v 0)
   | .P, "remove", [v, i] => some (.pRemove v i)
   | .P, "removeref", [v, i] => some (.pRemoveRef v i)
+  | .P, "append2", [v, x, y] => some (.pAppend v (x + y))
+  | .P, "removechain", [v, i, j] => some (.pRemoveChain v i j)
   | .Q, "append", [v, kk, x] => some (.qAppend v kk x)
   | .Q, "remove", [v, kk] => some (.qRemove v kk)
   | .Q, "removeat", [v, i] => some (.qRemoveAt v i)
   | .Q, "removeref", [v, i] => some (.qRemoveRef v i)
+  | .Q, "prepend", [v, kk, x] => some (.qInsert v (some 0) kk x)
+  | .Q, "insert", [v, p, kk, x] => some (.qInsert v (some p) kk x)
+  | .Q, "removechain", [v, i, j] => some (.qRemoveChain v i j)
   | _, _, _ => none
 
 /-- `removeFront()` / `removeBack()` = `remove(begin())` / `remove(--end())`: the remove-by-iterator operation of the
